@@ -271,16 +271,37 @@ def guard_facts(
 
     def alias_facts(kept: FrozenSet[Fact], test: ast.AST, pol: bool) -> List[Fact]:
         t, p = canon_fact(test, pol)
-        if not t.isidentifier():
-            return []
         out: List[Fact] = []
+        if t.isidentifier():
+            for f in kept:
+                if f[0].startswith("@alias:%s=" % t):
+                    try:
+                        e = ast.parse(f[0].split("=", 1)[1], mode="eval").body
+                    except SyntaxError:
+                        continue
+                    out.extend(_facts_of(e, p))
+            return out
+        # a test that mentions an aliased local (`f = self.x; if f is None`) also holds of the aliased path
+        names = {x.id for x in ast.walk(test) if isinstance(x, ast.Name)}
         for f in kept:
-            if f[0].startswith("@alias:%s=" % t):
-                try:
-                    e = ast.parse(f[0].split("=", 1)[1], mode="eval").body
-                except SyntaxError:
-                    continue
-                out.extend(_facts_of(e, p))
+            if not f[0].startswith("@alias:"):
+                continue
+            name, _, text = f[0][len("@alias:"):].partition("=")
+            if name not in names:
+                continue
+            try:
+                e = ast.parse(text, mode="eval").body
+            except SyntaxError:
+                continue
+            if not isinstance(e, (ast.Attribute, ast.Name)):
+                continue
+            import copy as _copy
+
+            class _S(ast.NodeTransformer):
+                def visit_Name(self, node):
+                    return _copy.deepcopy(e) if node.id == name and isinstance(node.ctx, ast.Load) else node
+
+            out.extend(_facts_of(_S().visit(_copy.deepcopy(test)), pol))
         return out
 
     reach = cfg.reachable()
